@@ -314,9 +314,15 @@ else:
         break
 
 # ---------------------------------------------------------------- 4. end to end: damaged cache directory
-sc, out = ck.build_repo_cmd("./cmd/staticcheck", "staticcheck-c05")
 e2e = None
-if sc is None:
+if os.environ.get("VERIF_C05_NO_E2E"):      # development aid for mutation runs only; never set by ./check or the manifest commands
+    sc, out = "skip", ""
+    ck.notes.append("end-to-end clause skipped (VERIF_C05_NO_E2E set)")
+else:
+    sc, out = ck.build_repo_cmd("./cmd/staticcheck", "staticcheck-c05")
+if sc == "skip":
+    pass
+elif sc is None:
     ck.violation("staticcheck-build", "cmd/staticcheck does not build", {"log": out[-3000:]}, no_input=True)
 else:
     ck.log("staticcheck built")
